@@ -79,8 +79,9 @@ package scanner
 
 //@ func (*Scanner).consumeStringClose
 //@   requires wfS(s)
-//@   loop 0 invariant wfS(s) && s.offset >= old(s.offset)
+//@   loop 0 invariant wfS(s) && s.offset >= old(s.offset) && 1 <= i && (quote.char > 0 ==> want > 0 && s.offset >= old(s.offset) + i - 1)
 //@   ensures  wfS(s) && s.offset >= old(s.offset)
+//@   ensures  [consumed] result1 && quote.char > 0 ==> s.offset >= old(s.offset) + quote.numChar + quote.numHash - 1
 //@   assigns  s.ch, s.offset, s.rdOffset, s.ErrorCount, s.file.*, allelems(token.index)
 
 //@ func (*Scanner).scanHashes
@@ -107,43 +108,65 @@ package scanner
 //@   ensures  result == tok0 || result == tok1
 //@   assigns  s.ch, s.offset, s.rdOffset, s.ErrorCount, s.file.*, allelems(token.index)
 
+// a quote descriptor as Scan builds them, and a stack of such descriptors
+//@ spec func wfQuote(q quoteInfo) bool { q.char > 0 && q.numChar >= 1 && q.numHash >= 0 }
+//@ spec func wfQ(s *Scanner) bool { forall k int :: {s.quoteStack[k]} 0 <= k && k < len(s.quoteStack) ==> wfQuote(s.quoteStack[k]) }
+
 // requires a non-empty interpolation stack: established by the parser's
 // INTERPOLATION protocol (A-int at the call in cue/parser)
 //@ func (*Scanner).popInterpolation
 //@   requires len(s.quoteStack) > 0
 //@   ensures  len(s.quoteStack) == old(len(s.quoteStack)) - 1
+//@   ensures  [wf] old(wfQ(s)) ==> wfQ(s) && wfQuote(result)
 //@   assigns  s.quoteStack
 
 //@ func (*Scanner).scanEscape
-//@   assumed A-int (Tier B: not yet verified): consumes an escape sequence by calls of next only
 //@   requires wfS(s)
+//@   loop 0 invariant wfS(s) && s.offset >= old(s.offset)
+//@   loop 1 invariant wfS(s) && s.offset >= old(s.offset)
+//@   ensures  [paren] result1 ==> s.ch == '('
 //@   ensures  wfS(s) && s.offset >= old(s.offset)
 //@   assigns  s.ch, s.offset, s.rdOffset, s.ErrorCount, s.file.*, allelems(token.index)
 
+// (P) C09/C02: the four computed slice bounds of scanString are in range for
+// every source text: the literal s.src[offs:s.offset(+1)], the white-space prefix
+// of a line of a multi-line string, its shrinking to the common prefix, and the
+// white space before the closing quotes (the close consumed numChar quotes and
+// numHash hashes after the start of the line).
 //@ func (*Scanner).scanString
-//@   assumed A-int (Tier B: the three computed slice bounds of scanString are not yet verified)
-//@   requires wfS(s)
-//@   ensures  wfS(s) && s.offset >= old(s.offset)
+//@   requires wfS(s) && wfQ(s) && 0 <= offs && offs <= s.offset && wfQuote(quote)
+//@   loop 0 invariant wfS(s) && wfQ(s) && s.offset >= old(s.offset) && 0 <= lineStart && lineStart <= s.offset && extra == 0 && tok == token.STRING && wfQuote(quote)
+//@   loop 0 invariant len(s.quoteStack) == old(len(s.quoteStack))
+//@   loop 1 invariant 0 <= i && i <= len(quote.minLineWS) && i <= len(ws)
+//@   ensures  wfS(s) && wfQ(s) && s.offset >= old(s.offset)
 //@   ensures  result0 == token.INTERPOLATION ==> len(s.quoteStack) > 0
 //@   assigns  s.ch, s.offset, s.rdOffset, s.ErrorCount, s.file.*, allelems(token.index), s.quoteStack, allelems(quoteInfo)
 
 //@ func (*Scanner).Scan
-//@   requires wfS(s)
-//@   loop 0 invariant wfS(s) && s.offset >= old(s.offset)
-//@   loop 1 invariant wfS(s) && s.offset >= old(s.offset) && 0 <= offset && s.offset >= offset + quote.numHash && quote.numHash >= 1
+//@   requires wfS(s) && wfQ(s)
+//@   loop 0 invariant wfS(s) && wfQ(s) && s.offset >= old(s.offset)
+//@   loop 1 invariant wfS(s) && wfQ(s) && s.offset >= old(s.offset) && 0 <= offset && s.offset >= offset + quote.numHash && quote.numHash >= 1
 //@   ensures  wfS(s) && s.offset >= old(s.offset)
+//@   ensures  [quotes] wfQ(s)
 //@   ensures  tok == token.INTERPOLATION ==> len(s.quoteStack) > 0
 //@   assigns  s.ch, s.offset, s.rdOffset, s.ErrorCount, s.file.*, allelems(token.index), s.quoteStack, allelems(quoteInfo), s.linesSinceLast, s.spacesSinceLast, s.insertEOL, s.nextHasComma
 
 //@ func (*Scanner).scanAttributeTokens
-//@   requires wfS(s)
-//@   loop 0 invariant wfS(s) && s.offset >= old(s.offset)
-//@   ensures  wfS(s) && s.offset >= old(s.offset)
+//@   requires wfS(s) && wfQ(s)
+//@   loop 0 invariant wfS(s) && wfQ(s) && s.offset >= old(s.offset)
+//@   ensures  wfS(s) && wfQ(s) && s.offset >= old(s.offset)
 //@   may_panic
 //@   assigns  s.ch, s.offset, s.rdOffset, s.ErrorCount, s.file.*, allelems(token.index), s.quoteStack, allelems(quoteInfo), s.linesSinceLast, s.spacesSinceLast, s.insertEOL, s.nextHasComma
 
 //@ func (*Scanner).scanAttribute
-//@   requires wfS(s) && s.offset >= 1
-//@   ensures  wfS(s) && s.offset >= old(s.offset)
+//@   requires wfS(s) && wfQ(s) && s.offset >= 1
+//@   ensures  wfS(s) && wfQ(s) && s.offset >= old(s.offset)
 //@   ensures  tok == token.ATTRIBUTE
 //@   assigns  s.ch, s.offset, s.rdOffset, s.ErrorCount, s.file.*, allelems(token.index), s.quoteStack, allelems(quoteInfo), s.linesSinceLast, s.spacesSinceLast, s.insertEOL, s.nextHasComma
+
+// API protocol (parser): called after the ')' that ends an interpolated
+// expression was consumed, with the interpolation still on the stack
+//@ func (*Scanner).ResumeInterpolation
+//@   requires wfS(s) && wfQ(s) && len(s.quoteStack) > 0 && s.offset >= 1
+//@   ensures  wfS(s) && wfQ(s) && s.offset >= old(s.offset)
+//@   assigns  s.ch, s.offset, s.rdOffset, s.ErrorCount, s.file.*, allelems(token.index), s.quoteStack, allelems(quoteInfo)
